@@ -1,6 +1,7 @@
 """C03 - termination, stop criterion and trial budget.
 
-For every case the real Solve() is run once on a fresh solver (the objective is guarded: more than
+For every case the real Solve() is run on a fresh solver, in part of the cases after some DoGlobalIteration calls and/or a
+second time after the parameters were changed in place (the objective is guarded: more than
 4*itersLimit+64 calls raise, so a search that does not terminate is reported instead of hanging).
 From the x history alone the Hoelder length delta_k = (x_r - x_l)^(1/N) of the interval subdivided by
 trial k (k >= 2; trial 1 only seeds the partition {[0,.5],[.5,1]}) is recomputed (same expression as the
@@ -29,18 +30,44 @@ import o1_common as oc
 PROP = "C03"
 RULE = ("random objective/box/N=1..5/density/r; eps in {1e-4..1.5} (incl. eps >= 1) and itersLimit in {1,2,3,4,5,8,...,400} "
         "with 40% of the cases forced to itersLimit in {1,2,3} or eps in {1.0,1.5}; 15% with refineSolution=True (local-phase "
-        "calls must not be counted). Distinct by parameter set; non-trivial if the run has >= 2 trials; the stats split the "
+        "calls must not be counted); 25% with 1..60 iterations made through DoGlobalIteration calls before Solve (below, at and above "
+        "the budget: Solve must end at the first moment the rule holds, at once if it already does), 20% with a second Solve after "
+        "itersLimit/eps of the shared parameters object were changed in place (it must continue to the new criterion). Distinct by parameter set; non-trivial if the run has >= 2 trials; the stats split the "
         "runs into accuracy stops, budget stops and both.")
 
 
+def expected_T(deltas, t_start, lim, eps, t_max):
+    """smallest T >= t_start (T >= 1) at which CheckStopCondition holds: T >= lim or some delta_k < eps with k <= T;
+    None if that is beyond the t_max trials actually made"""
+    for T in range(max(t_start, 1), t_max + 1):
+        if T >= lim or any(d is not None and d < eps for d in deltas[:max(0, T - 1)]):
+            return T
+    return None
+
+
 def check_case(case):
+    """optional keys: "pre" = sizes of DoGlobalIteration calls made before Solve (they ignore the stop rule, Solve must then
+    end at the first moment the rule holds - possibly at once); "again" = {"lim": L2, "eps": E2}: after the first Solve the
+    parameters object is changed in place and Solve is called a second time (it must continue to the new criterion)"""
     vs = []
     info = {}
     run = oc.Run(case)
     lim, eps, n = case["lim"], case["eps"], case["n"]
+    pre, again = case.get("pre") or [], case.get("again")
     err, sol = None, None
+    A = []                      # number of global trials after each phase
     try:
+        for k in pre:
+            if not run.iterate(k):
+                break
+        T0 = len(run.glog())
         sol = run.solve()
+        A.append(len(run.glog()))
+        if again and not run.collapsed:
+            run.solver.parameters.itersLimit = again["lim"]
+            run.solver.parameters.eps = again["eps"]
+            sol = run.solve()
+            A.append(len(run.glog()))
     except BaseException as e:                # noqa
         err = repr(e)
     if run.trouble(err):
@@ -55,21 +82,25 @@ def check_case(case):
     if not (T == rep.numberOfGlobalTrials == nitems) or (sol is not None and sol.numberOfGlobalTrials != T):
         vs.append(oc.violation(PROP, case, "evals-equal-reported", {"global_calls": T, "reported": rep.numberOfGlobalTrials,
                                                                     "stored_trials": nitems}))
-    if not (1 <= T <= lim):
-        vs.append(oc.violation(PROP, case, "budget", {"global_calls": T, "itersLimit": lim}))
     xs = [h[0] for h in hist]
     ch = oc.chosen_intervals(xs, n)
     deltas = [c[2] if c is not None else None for c in ch[1:]]      # k = 2..
-    # expected number of trials
-    kacc = next((k for k, d in enumerate(deltas, start=2) if d is not None and d < eps), None)
-    if kacc is not None and kacc < T:
-        vs.append(oc.violation(PROP, case, "never-later", {"trials": T, "first_short_k": kacc, "delta": deltas[kacc - 2],
-                                                           "eps": eps, "itersLimit": lim}))
-    if T > lim:
-        vs.append(oc.violation(PROP, case, "never-later", {"trials": T, "itersLimit": lim}))
-    if T < lim and (kacc is None or kacc > T) and not col:
-        vs.append(oc.violation(PROP, case, "never-earlier", {"trials": T, "itersLimit": lim, "eps": eps,
-                                                             "min_delta": min([d for d in deltas if d is not None], default=None)}))
+    phases = [(lim, eps)] + ([(again["lim"], again["eps"])] if again else [])
+    t_start = T0 if not err and "T0" in dir() else 0
+    if not (1 <= T <= max(max(l for l, _ in phases[:len(A)] or [(lim, eps)]), sum(pre))):
+        vs.append(oc.violation(PROP, case, "budget", {"global_calls": T, "itersLimit": lim, "pre_iterations": sum(pre),
+                                                      "again": again}))
+    for ph, (a, (l_, e_)) in enumerate(zip(A, phases)):
+        if col:
+            break
+        exp = expected_T(deltas, t_start, l_, e_, T)
+        obs = {"phase": ph + 1, "trials_after_phase": a, "expected": exp, "trials_before_phase": t_start, "itersLimit": l_,
+               "eps": e_, "pre_iterations": sum(pre), "deltas_head": deltas[:12]}
+        if exp is None or a < exp:
+            vs.append(oc.violation(PROP, case, "never-earlier", obs))
+        elif a > exp:
+            vs.append(oc.violation(PROP, case, "never-later", obs))
+        t_start = a
     good = [d for d in deltas if d is not None]
     exp_acc = min(good) if good else math.inf
     if col:                      # the interval taken last (and not subdivided) was already accounted for
@@ -77,13 +108,17 @@ def check_case(case):
     acc = rep.solutionAccuracy
     if not (acc == exp_acc):
         vs.append(oc.violation(PROP, case, "accuracy-is-min-delta", {"reported": float(acc), "expected": exp_acc, "trials": T}))
-    if not run.stopped() and not col:
+    if not run.stopped() and not col and not err:
         vs.append(oc.violation(PROP, case, "stop-flag", {"trials": T, "iterationsCount": run.solver.method.iterationsCount}))
     rep2 = run.solver.GetResults()
     if rep2.numberOfGlobalTrials != rep.numberOfGlobalTrials or len(run.glog()) != T:
         vs.append(oc.violation(PROP, case, "idempotent-count", {"before": T, "after": len(run.glog())}))
+    l_, e_ = phases[len(A) - 1] if A else (lim, eps)
+    kacc = next((k for k, d in enumerate(deltas, start=2) if d is not None and d < e_), None)
     info["accuracy_stop"] = kacc is not None and kacc == T
-    info["budget_stop"] = T == lim
+    info["budget_stop"] = T == l_
+    info["pre"] = bool(pre)
+    info["again"] = bool(again)
     return vs, info
 
 
@@ -101,6 +136,19 @@ def gen(r):
     if "lim" not in kw and r.random() < 0.75:
         kw["lim"] = r.choice([4, 5, 8, 17, 40, 80, 150, 400])
     case = oc.gen_case(r, refine=r.random() < 0.15, **kw)
+    v = r.random()
+    if v < 0.25 and not case["refine"]:
+        # iterations made through DoGlobalIteration before Solve: fewer than, exactly, or more than the budget allows
+        tot = r.choice([1, 2, 3, case["lim"] - 1, case["lim"], case["lim"] + 1, case["lim"] + 3, r.randint(1, 30)])
+        tot = max(1, min(tot, 60))
+        pre = []
+        while tot > 0:
+            k = r.randint(1, tot)
+            pre.append(k); tot -= k
+        case["pre"] = pre
+    if 0.2 < v < 0.4 and not case["refine"]:
+        # a second Solve after the parameters object was changed in place (larger budget and/or smaller eps, or unchanged)
+        case["again"] = {"lim": case["lim"] + r.choice([0, 1, 2, 7, 30]), "eps": case["eps"] * r.choice([1.0, 1.0, 0.5, 0.1])}
     return case
 
 
@@ -124,6 +172,8 @@ def run(tier, r):
         oc.bump(stats, "budget_stop", 1 if info.get("budget_stop") else 0)
         oc.bump(stats, "both", 1 if info.get("budget_stop") and info.get("accuracy_stop") else 0)
         oc.bump(stats, "trials_total", info.get("trials", 0))
+        oc.bump(stats, "with_pre_iterations", 1 if info.get("pre") else 0)
+        oc.bump(stats, "with_second_solve", 1 if info.get("again") else 0)
         key = oc.case_key(case)
         if key not in keys:
             keys.add(key)
